@@ -13,7 +13,7 @@ hand_modelled = ['coq/Sem/InvModel.v: InvariantedClass (__setattr__, __getattrib
 explanation = ('Theorems on the invariant state machine over all histories; correspondence: real deal.inv classes vs the model on random classes x invariant '
                'stacks x histories; independent monitor evaluating the invariants on vars(obj) + class attributes after every step.')
 RULE = ('classes with 2-3 integer attributes (some only class-level), 1-3 stacked invariants in explicit or `_` form over them, histories of <= 10 operations '
-        '(assign, method with 0-3 internal assignments that returns or raises, static/class method, disable/enable), optionally through a subclass; '
+        '(assign, method with 0-3 internal assignments that returns or raises, static/class method, disable/enable), optionally through a subclass (plain, or decorated with invariants of its own on top of the inherited ones); '
         'non-trivial = at least one operation violates an invariant or is rejected at entry')
 ATTRS = ['x', 'y', 'z']
 
@@ -41,7 +41,9 @@ def gen_case(rnd):
             hist.append(['call', sets, rnd.random() < .2, rnd.randint(0, 9)])
         elif r < .9: hist.append(['static', rnd.randint(0, 9)])
         else: hist.append(['switch', rnd.random() < .5])
-    return {'cls_attrs': cls_attrs, 'invs': invs, 'init': init, 'history': hist, 'subclass': rnd.random() < .25}
+    sub = rnd.random() < .3
+    return {'cls_attrs': cls_attrs, 'invs': invs, 'init': init, 'history': hist, 'subclass': sub,
+            'split': (rnd.randint(0, len(invs)) if (sub and rnd.random() < .6) else None)}
 
 
 def q(s): return '"' + s + '"'
